@@ -156,6 +156,16 @@ pub const IPV6_POOL: &[&str] = &[
 	"[::]", "[::1]", "[1::]", "[1:2:3:4:5:6:7:8]", "[1:2:3:4:5:6:1.2.3.4]", "[::1.2.3.4]", "[1::8]",
 	"[1:2:3:4:5:6:7::]", "[::2:3:4:5:6:7:8]", "[1:2::7:8]", "[abcd:EF01::255.255.255.255]", "[1::2:3:4:5:6:7]",
 	"[2001:db8::7]", "[::ffff:1.2.3.4]", "[v1.x]", "[vF.a:b]", "[v1a.~!$&'()*+,;=:]", "[V9.x]",
+	// longer than any IPv6 text (45 bytes), with ':' late in the literal
+	"[v1.aaaaaaaaaaaaaaaaaaaaaaaaaaaaaaaaaaaaaaaaaaaaaaaaaaaaaaaaaaaaaaaa:b]", "[vABCDEF0123456789.x:y:z:aaaaaaaaaaaaaaaaaaaaaaaaaaaaaaaaaaaaaaaaaaaaaa:1:2]",
+	"[aaaa:bbbb:cccc:dddd:eeee:ffff:255.255.255.255]", "[0000:0000:0000:0000:0000:0000:0000:0000]",
+];
+
+/// Hosts that are NOT valid (or valid only in one family) but close to valid ones; used where
+/// inputs are filtered through the library's own constructors.
+pub const NEAR_VALID_HOSTS: &[&str] = &[
+	"[fe80::1%25eth0]", "[::1%eth0]", "[1:2:3:4:5:6:7::8]", "[1:2:3:4:5:6:7::]", "[::256.1.1.1]", "[::1.2.3.4.5]", "[v.a]", "[v1.]", "[::12345]", "[1:2:3:4:5:6:7:8:9]", "[::1]x", "[::1", "::1]",
+	"256.256.256.256", "1.2.3.4.", "h:x", "[::ffff:192.168.1.256]", "[::ffff:01.2.3.4]", "[0:0:0:0:0:0:0:0:0]", "[vG.x]", "[V1.\u{e9}]",
 ];
 
 pub fn host(o: Opt) -> BoxedStrategy<String> {
@@ -578,6 +588,12 @@ pub enum Variant {
 	/// percent-encode EVERY character of the host that is not unreserved (an
 	/// IP-literal becomes a registered name that decodes to the same octets)
 	EncodeWholeHost(bool),
+	/// authority absent <-> present-but-empty
+	ToggleEmptyAuthority,
+	/// replace the query / the fragment by another small value (near miss; two of them
+	/// in a row order query and fragment in opposite directions)
+	ChangeQuery(u8),
+	ChangeFragment(u8),
 	/// join segments k and k+1 with a character that sorts below '/' (near miss
 	/// that distinguishes byte order from segment order)
 	MergeSegments(u16, u8),
@@ -603,6 +619,9 @@ pub fn variant() -> BoxedStrategy<Variant> {
 		1 => Just(Variant::AppendSegment),
 		2 => (any::<u16>(), any::<u8>()).prop_map(|(k, c)| Variant::MergeSegments(k, c)),
 		1 => any::<bool>().prop_map(Variant::EncodeWholeHost),
+		1 => Just(Variant::ToggleEmptyAuthority),
+		1 => any::<u8>().prop_map(Variant::ChangeQuery),
+		1 => any::<u8>().prop_map(Variant::ChangeFragment),
 	]
 	.boxed()
 }
@@ -855,6 +874,21 @@ pub fn apply_variant(p: &Parts, v: &Variant) -> Parts {
 			sg.push("z".into());
 			set_path(&mut q, abs, sg);
 		}
+		Variant::ToggleEmptyAuthority => {
+			match q.authority.as_deref() {
+				None => {
+					q.authority = Some(String::new());
+					set_path(&mut q, abs, sg);
+				}
+				Some("") => {
+					q.authority = None;
+					set_path(&mut q, abs, sg);
+				}
+				_ => {}
+			}
+		}
+		Variant::ChangeQuery(k) => q.query = Some(["0", "1", "2", "a", "b", "", "z"][*k as usize % 7].to_string()),
+		Variant::ChangeFragment(k) => q.fragment = Some(["0", "1", "2", "a", "b", "", "z"][*k as usize % 7].to_string()),
 		Variant::EncodeWholeHost(upper) => {
 			if let Some(a) = &q.authority {
 				let mut ap = split_authority(a);
